@@ -1352,7 +1352,8 @@ class Interp:
                 n0 = len(el.fails)
                 v = self.eval(cx, fr, sub)
                 t = truth(cx, v)
-                if not (isinstance(v, (bool, SBool)) or z3.is_bool(v)):
+                if not (isinstance(v, (bool, SBool)) or z3.is_bool(v)) and not getattr(el, "truth_only", False):
+                    # (a consumer that only uses the truth value of the result — filter(), a comprehension's `if` — may say so)
                     raise Unsupported("non-boolean operand of and/or in a quantified context")
                 tb = as_bool(cx, t)
                 el.fails[n0:] = [(x, z3.And(guard, c)) for x, c in el.fails[n0:]]
@@ -1588,10 +1589,12 @@ class Interp:
             cx.pure_depth -= 1
             cx.elem = old
 
-    def eval_on_element(self, cx, func, elem_val, index):
-        """Call a closure / function value on a generic element (element mode)."""
+    def eval_on_element(self, cx, func, elem_val, index, truth_only=False):
+        """Call a closure / function value on a generic element (element mode). truth_only: the caller uses nothing but
+        the truth value of the result, so `a and b` over non-boolean operands may be read as the conjunction of their truths."""
         old = getattr(cx, "elem", None)
         cx.elem = ElemCtx(index)
+        cx.elem.truth_only = truth_only
         cx.pure_depth = getattr(cx, "pure_depth", 0) + 1
         try:
             v = self.call_value(cx, None, func, [elem_val], {})
